@@ -858,6 +858,24 @@ class LatticeConstraints(keras.constraints.Constraint):
     Raises:
       ValueError: If weights to project don't correspond to `lattice_sizes`.
     """
+    # Same meaning as in `Lattice`: a single constraint can be given as one
+    # tuple instead of an iterable of tuples.
+    def as_list(constraints):
+      if (isinstance(constraints, tuple) and constraints and
+          isinstance(constraints[0], int)):
+        return [constraints]
+      return constraints
+
+    edgeworth_trusts = as_list(edgeworth_trusts)
+    trapezoid_trusts = as_list(trapezoid_trusts)
+    monotonic_dominances = as_list(monotonic_dominances)
+    range_dominances = as_list(range_dominances)
+    joint_monotonicities = as_list(joint_monotonicities)
+    if (isinstance(joint_unimodalities, tuple) and
+        len(joint_unimodalities) == 2 and
+        isinstance(joint_unimodalities[1], six.string_types)):
+      joint_unimodalities = [joint_unimodalities]
+
     lattice_lib.verify_hyperparameters(
         lattice_sizes=lattice_sizes,
         monotonicities=monotonicities,
